@@ -64,3 +64,55 @@ Theorem scan_sound jsc_len enum_len data :
                     lexemes_from (N.of_nat (List.length data)) 0 lexs
   end.
 Proof. intros. apply (scan_sound_generic gen_typing gen_table_ok); assumption. Qed.
+
+(* ---- corollaries in the vocabulary of the properties ---- *)
+Definition in_bounds (size : N) (l : lexeme) : Prop := lb l <= le l + 1 /\ le l + 1 <= size.
+
+Fixpoint ordered (ls : list lexeme) : Prop :=
+  match ls with
+  | [] => True
+  | l :: r => match r with [] => True | l2 :: _ => le l + 1 <= lb l2 end /\ ordered r
+  end.
+
+Lemma lexemes_from_in_bounds size F ls : lexemes_from size F ls -> Forall (in_bounds size) ls.
+Proof.
+  revert F; induction ls as [|l r IH]; intros F H; [constructor|].
+  destruct H as (A & _ & C). constructor; [exact A | eapply IH; exact C].
+Qed.
+
+Lemma lexemes_from_ordered size F ls : lexemes_from size F ls -> ordered ls.
+Proof.
+  revert F; induction ls as [|l r IH]; intros F H; [exact I|].
+  destruct H as (_ & _ & C). split; [|eapply IH; exact C].
+  destruct r as [|l2 r2]; [exact I|]. destruct C as (_ & C2 & _). exact C2.
+Qed.
+
+Definition scan_lexemes jsc_len enum_len data : list lexeme := fst (fst (scan jsc_len enum_len data)).
+Definition scan_result jsc_len enum_len data : scan_end := snd (fst (scan jsc_len enum_len data)).
+
+(* C01(a): the scanner ends with end-of-file or with a diagnostic located inside the file;
+   it never panics and never runs out of fuel (= never loops) *)
+Theorem scan_total_lemma jsc_len enum_len data :
+  len_sane jsc_len -> len_sane enum_len -> Forall isb data ->
+  match scan_result jsc_len enum_len data with
+  | SEof => True
+  | SErr p _ => p <= N.of_nat (List.length data)
+  | SPanic _ => False
+  | SFuel => False
+  end.
+Proof.
+  intros H1 H2 H3. pose proof (scan_sound jsc_len enum_len data H1 H2 H3) as H.
+  unfold scan_result. destruct (scan jsc_len enum_len data) as [[lexs e] g]. simpl. destruct H as [H _].
+  destruct e; exact H.
+Qed.
+
+(* C14: lexemes lie inside the input, do not overlap, come in increasing position *)
+Theorem lexemes_wf_lemma jsc_len enum_len data :
+  len_sane jsc_len -> len_sane enum_len -> Forall isb data ->
+  Forall (in_bounds (N.of_nat (List.length data))) (scan_lexemes jsc_len enum_len data) /\
+  ordered (scan_lexemes jsc_len enum_len data).
+Proof.
+  intros H1 H2 H3. pose proof (scan_sound jsc_len enum_len data H1 H2 H3) as H.
+  unfold scan_lexemes. destruct (scan jsc_len enum_len data) as [[lexs e] g]. simpl. destruct H as [_ H].
+  split; [eapply lexemes_from_in_bounds | eapply lexemes_from_ordered]; exact H.
+Qed.
